@@ -57,6 +57,7 @@ static const char* const kOpName[] = {
 struct Ins {
   Op op; int a = -1, b = -1, c = -1; int64_t imm = 0; int sz = 0; int lbl = -1; int fn = -1;
   std::vector<int> lbls;   // jump table targets
+  std::vector<int> ann;    // order of the labels in the jump annotation (empty: same as the table)
   std::vector<int> args;   // call arguments: value index, or <= -1000 : immediate (-1000 - k) => constant k
 };
 
@@ -573,7 +574,7 @@ struct EmitX86 {
         E(cc.add(tgt, off));
         JumpAnnotation* ann = cc.new_jump_annotation();
         if (!ann) { E(Error::kOutOfMemory); break; }
-        for (int l : I.lbls) E(ann->add_label(labels[size_t(l)]));
+        for (int l : (I.ann.empty() ? I.lbls : I.ann)) E(ann->add_label(labels[size_t(l)]));
         E(cc.jmp(tgt, ann));
         tables.push_back(t);
         break;
@@ -1051,9 +1052,9 @@ struct Fill { int slot; int alpha; int pat; };
 struct Desc { int arch = 0 /* 0 x64 native, 1 x86-32 simulated, 2 AArch64 simulated */; int shape = 0, K = 0, n = 1, am = 6, vm = 0; std::vector<Fill> fills; int x = 0 /* shape specific extra parameter */; };
 static const char* const kArchName[] = {"x64", "x86", "a64"};
 
-enum { SH_STRAIGHT, SH_DIAMOND, SH_LOOP, SH_NESTED, SH_LOOPCOND, SH_IRREDUCIBLE, SH_JT3, SH_JT2, SH_CALLMID, SH_CALLLOOP, SH_TWOCALLS, SH_LOOPLOCAL_E, SH_LOOPLOCAL_L, SH_MARSHAL, SH_MANYARGS, SH_SWAPLOOP, SH__COUNT };
-static const char* const kShapeName[] = {"straight", "diamond", "loop", "nested-loop", "loop-cond", "irreducible", "jumptable3", "jumptable2", "call-mid", "call-loop", "two-calls", "loop-local-early", "loop-local-late", "call-args", "many-args", "swap-loop"};
-static const int kShapeSlots[] = {2, 4, 4, 4, 4, 4, 4, 3, 2, 2, 3, 4, 4, 2, 2, 2};
+enum { SH_STRAIGHT, SH_DIAMOND, SH_LOOP, SH_NESTED, SH_LOOPCOND, SH_IRREDUCIBLE, SH_JT3, SH_JT2, SH_CALLMID, SH_CALLLOOP, SH_TWOCALLS, SH_LOOPLOCAL_E, SH_LOOPLOCAL_L, SH_MARSHAL, SH_MANYARGS, SH_SWAPLOOP, SH_TWOJT, SH__COUNT };
+static const char* const kShapeName[] = {"straight", "diamond", "loop", "nested-loop", "loop-cond", "irreducible", "jumptable3", "jumptable2", "call-mid", "call-loop", "two-calls", "loop-local-early", "loop-local-late", "call-args", "many-args", "swap-loop", "two-jumptables"};
+static const int kShapeSlots[] = {2, 4, 4, 4, 4, 4, 4, 3, 2, 2, 3, 4, 4, 2, 2, 2, 4};
 
 enum { NEED_RDX = 1, NEED_AB_DISTINCT = 2, NEED_XMM_ONLY = 4, NEED_VEX = 8, NEED_NOT_Z = 16, NEED_BC_DISTINCT = 32, NEED_64 = 64, NEED_NATIVE = 128, NEED_3REGS = 256 };
 
@@ -1290,8 +1291,8 @@ void PB::slot(int s) {
 }
 
 // ---- program construction -------------------------------------------------------------------------------
-static bool shape_uses_sel(int sh) { return sh == SH_DIAMOND || sh == SH_IRREDUCIBLE || sh == SH_JT3 || sh == SH_JT2; }
-static bool shape_uses_cnt(int sh) { return sh == SH_SWAPLOOP || sh == SH_LOOPLOCAL_E || sh == SH_LOOPLOCAL_L || sh == SH_LOOP || sh == SH_NESTED || sh == SH_LOOPCOND || sh == SH_IRREDUCIBLE || sh == SH_CALLLOOP; }
+static bool shape_uses_sel(int sh) { return sh == SH_TWOJT || sh == SH_DIAMOND || sh == SH_IRREDUCIBLE || sh == SH_JT3 || sh == SH_JT2; }
+static bool shape_uses_cnt(int sh) { return sh == SH_TWOJT || sh == SH_SWAPLOOP || sh == SH_LOOPLOCAL_E || sh == SH_LOOPLOCAL_L || sh == SH_LOOP || sh == SH_NESTED || sh == SH_LOOPCOND || sh == SH_IRREDUCIBLE || sh == SH_CALLLOOP; }
 
 static void call(PB& b, int fn, int ret) {
   // AArch64 calls go through a register: 8 register arguments + the target need 9 allocatable registers
@@ -1407,6 +1408,34 @@ static bool build_prog(const Desc& d, PB& b) {
       b.bind(l1); b.I(O_ADD, F, L); b.slot(2); if (d.shape == SH_JT3) b.jmp(le);
       if (d.shape == SH_JT3) { b.bind(l2); b.I(O_XOR, L, S); b.slot(3); }
       b.bind(le);
+      break;
+    }
+    case SH_TWOJT: {
+      // two annotated indirect jumps into the SAME set of targets (the second one meets an existing shared entry assignment), a call
+      // between them, targets with DIFFERENT live-in sets: the partial targets consume one value each and return, the last target
+      // consumes everything.  x bit 0: labels of the annotation in reversed order; x bit 1: two targets instead of three.
+      // Inputs: cnt selects the path (0: first jump, else: call + second jump), sel selects the target.
+      const bool rev = d.x & 1, two = d.x & 2;
+      int t0 = b.label(), t1 = b.label(), tl = b.label(), lb2 = b.label();
+      int idx = b.tmp("i"), r = b.tmp("r");
+      std::vector<int> tab = two ? std::vector<int>{t0, tl} : std::vector<int>{t0, t1, tl};
+      std::vector<int> ann(tab.rbegin(), tab.rend());
+      b.I(O_MOVI, r, -1, -1, 9);
+      b.I(O_MOV, idx, b.sel); if (two) b.I(O_ANDI, idx, -1, -1, 1);
+      b.slot(0);
+      b.br(O_JNZ, b.cnt, lb2);
+      { Ins& jt = b.I(O_JT, idx); jt.lbls = tab; if (rev) jt.ann = ann; }
+      b.bind(lb2); b.slot(1); call(b, 2, r); b.slot(2);
+      { Ins& jt = b.I(O_JT, idx); jt.lbls = tab; if (rev) jt.ann = ann; }
+      auto partial = [&](int lbl, int v, int64_t seed) {
+        int a2 = b.tmp("pa");
+        b.bind(lbl); b.I(O_MOVI, a2, -1, -1, seed); b.I(O_LEA, a2, a2, a2, 0, 1); b.I(O_ADD, a2, v); b.I(O_LEA, a2, a2, a2, 0, 1); b.I(O_ADD, a2, r);
+        b.I(O_STORE, a2, -1, -1, 64, p.w32 ? 4 : 8); b.I(O_RET, a2);
+      };
+      partial(t0, F, 7);
+      if (!two) partial(t1, L, 11);
+      b.bind(tl); b.slot(3);
+      b.extra.push_back(r);
       break;
     }
     case SH_LOOPLOCAL_E: case SH_LOOPLOCAL_L: {
@@ -1535,8 +1564,9 @@ static std::vector<Input> inputs_for(int shape) {
   std::vector<std::pair<uint64_t, uint64_t>> ctl;   // (sel, cnt)
   std::vector<uint64_t> sels = {0}, cnts = {0};
   if (shape == SH_DIAMOND || shape == SH_IRREDUCIBLE || shape == SH_JT2) sels = {0, 1};
-  if (shape == SH_JT3) sels = {0, 1, 2};
+  if (shape == SH_JT3 || shape == SH_TWOJT) sels = {0, 1, 2};
   if (shape_uses_cnt(shape)) cnts = {0, 1, 3};
+  if (shape == SH_TWOJT) cnts = {0, 1};
   std::vector<Input> out;
   for (uint64_t s : sels) for (uint64_t cn : cnts) for (int t = 0; t < 4; t++) {
     Input in; in.sel = s; in.cnt = cn;
@@ -1757,7 +1787,7 @@ int main(int argc, char** argv) {
   }
 
   g_dry = c.opt("dry") == "1";
-  std::vector<int> all_shapes; for (int i = 0; i < SH__COUNT; i++) if (i != SH_MARSHAL && i != SH_MANYARGS && i != SH_SWAPLOOP) all_shapes.push_back(i);
+  std::vector<int> all_shapes; for (int i = 0; i < SH__COUNT; i++) if (i != SH_MARSHAL && i != SH_MANYARGS && i != SH_SWAPLOOP && i != SH_TWOJT) all_shapes.push_back(i);
   std::vector<Config> cfg1, cfg2;
   std::string bound;
   auto add_k = [&](std::vector<Config>& v, int K, std::initializer_list<int> ams) {
@@ -1826,6 +1856,14 @@ int main(int argc, char** argv) {
     std::vector<Config> sw;
     for (int vm : {6, 0, 5}) for (int K : {0, 4, 3}) for (int n : {2, 3, 5}) { if (!c.thorough() && vm != 6 && !(K == 0 && n == 3)) continue; sw.push_back(Config{K, n, 6, vm}); }
     if (!g_stop) enumerate(sw, 1, {SH_SWAPLOOP});
+    // two annotated indirect jumps into one set of targets
+    std::vector<Config> tj;
+    for (int x = 0; x < 4; x++) for (auto kn : {std::make_pair(3, 2), std::make_pair(3, 3), std::make_pair(3, 5), std::make_pair(0, 20)}) {
+      if (!c.thorough() && kn.second == 2 && x >= 2) continue;
+      Config cf{kn.first, kn.second, 6, 0}; cf.x = x; if (!c.thorough()) cf.pats = 0x09; tj.push_back(cf);
+      if (c.thorough()) { Config m = cf; m.vm = 6; tj.push_back(m); Config w = cf; w.vm = 5; tj.push_back(w); }
+    }
+    if (!g_stop) enumerate(tj, 1, {SH_TWOJT});
   }
   long long n1 = c.n("evaluations");
   if (!cfg2.empty() && !g_stop) enumerate(cfg2, 2, all_shapes, 0x0B);
@@ -1835,7 +1873,7 @@ int main(int argc, char** argv) {
   c.n("transitions") = c.n("traces");
   for (auto& kv : g_shape_count) c.n(("shape_" + kv.first).c_str()) = kv.second;
   c.strs["bound"] = bound + (g_stop ? " (capped by the deadline)" : "");
-  c.strs["rule"] = "programs = arch{x64 native, x86-32 simulated, AArch64 simulated} x shape{straight,diamond,loop,nested-loop,loop-cond,irreducible,jumptable3,jumptable2,call-mid,call-loop,two-calls,loop-local-early,loop-local-late (a value live only around the back edge),swap-loop (fixed-register instructions force a register exchange at the back edge),call-args (argument marshalling: typed 8/16/32/64-bit register x wider parameter x register/stack position),many-args (16 arguments, 32-byte aligned stack variable, call with stack arguments; also int16_t arguments in 32-bit registers)} x register file K x pressure x "
+  c.strs["rule"] = "programs = arch{x64 native, x86-32 simulated, AArch64 simulated} x shape{straight,diamond,loop,nested-loop,loop-cond,irreducible,jumptable3,jumptable2,call-mid,call-loop,two-calls,loop-local-early,loop-local-late (a value live only around the back edge),swap-loop (fixed-register instructions force a register exchange at the back edge),two-jumptables (two annotated indirect jumps into one set of 2-3 targets with different live-in sets, a call before the second jump, both annotation orders),call-args (argument marshalling: typed 8/16/32/64-bit register x wider parameter x register/stack position),many-args (16 arguments, 32-byte aligned stack variable, call with stack arguments; also int16_t arguments in 32-bit registers)} x register file K x pressure x "
                    "argument mode x value mode{gp64, xmm, ymm, zmm, k-mask, gp32, mixed gp64/gp32} x slot fillings (alphabet of " + std::to_string(kAlphaCount) + " instruction forms x operand pattern{first/second/last/same-twice}); every program is built with the Compiler and allocated; "
                    "x64: assembled and executed natively on 4 data tuples x every control input (branch both ways, loops 0/1/3 trips, every jump-table target); x86-32/AArch64: the allocated node list is interpreted by engine/msim.h on the same inputs; "
                    "compared with the direct interpretation of the IR: return value, memory buffer (+ guards / any store outside buffer and stack), external-call log; callee-saved registers and stack pointer preserved; "
